@@ -28,8 +28,8 @@ CFGS = {
     'notcp': ['-DENABLE_TCP=OFF', '-DENABLE_WS=OFF'],
     'nooscore': ['-DENABLE_OSCORE=OFF'],
     'smallstack': ['-DENABLE_SMALL_STACK=ON'],
-    'serveronly': ['-DENABLE_CLIENT_MODE=OFF', '-DENABLE_EXAMPLES=OFF', '-DENABLE_TESTS=OFF'],
-    'clientonly': ['-DENABLE_SERVER_MODE=OFF', '-DENABLE_EXAMPLES=OFF', '-DENABLE_TESTS=OFF'],
+    'serveronly': ['-DENABLE_CLIENT_MODE=OFF', '-DENABLE_PROXY_CODE=OFF', '-DENABLE_EXAMPLES=OFF', '-DENABLE_TESTS=OFF'],
+    'clientonly': ['-DENABLE_SERVER_MODE=OFF', '-DENABLE_PROXY_CODE=OFF', '-DENABLE_EXAMPLES=OFF', '-DENABLE_TESTS=OFF'],
     'reccheck': ['-DENABLE_THREAD_RECURSIVE_LOCK_CHECK=ON'],
 }
 # preprocessor modes
